@@ -574,7 +574,7 @@ class StreamCheckBase(Check):
             if "injections" in c:
                 # re-anchor injections at the first instance of their chunk
                 starts = np.cumsum([0] + chunks[:-1]).tolist()
-                c["injections"] = [dict(i, at=starts[i["at"]]) for i in c["injections"]]
+                c["injections"] = [dict(i, at=(starts[i["at"]] if i["at"] >= 0 else -1)) for i in c["injections"]]
             yield c
         # simplify parameters
         p = sc["subject"]["params"]
@@ -602,6 +602,8 @@ class C03Check(StreamCheckBase):
         "window_evicted",
         "rng_subject",
         "nan_utility_seen",
+        "spurious_before_first_update",
+        "spurious_other_width",
     ]
     assumptions = [
         "the caller reports to update exactly what query returned (honest caller)",
@@ -696,10 +698,77 @@ class C03Check(StreamCheckBase):
                             r[1] = max(r[1], 1.0) if len(r) > 1 else 0.0
                 e["rows"] = rows
             inj.append(e)
+        if f.chance(0.15):
+            # the history starts with an update that no query preceded (a caller replaying a logged chunk): the
+            # spurious queries placed before it make query(), not update(), the call that lazily initialises
+            m0 = f.pick([1, 1, 2, 5])
+            if is_manager:
+                rows0 = [[float(x)] for x in gen_utilities(f.fork("uf"), m0, f.pick(ADVERSARIES), budget)]
+            else:
+                src = np.array(sc["X"])
+                rows0 = src[f.np("uf").randint(0, len(src), m0)].tolist()
+            sc["update_first"] = {
+                "rows": rows0,
+                "queried": sorted(f.sample(range(m0), f.randint(0, m0))),
+                "utilities": np.round(f.np("ufu").random_sample(m0), 6).tolist(),
+            }
+            for j in range(f.pick([1, 1, 2])):
+                kind = f.pick(kinds)
+                e = {"at": -1, "slot": "pre", "kind": kind, "repeat": f.pick([1, 1, 2])}
+                if kind in ("foreign", "resize"):
+                    m = f.pick([1, 2, 5])
+                    if is_manager:
+                        rows = [[float(x)] for x in gen_utilities(f.fork(f"ufi{j}"), m, f.pick(ADVERSARIES), budget)]
+                    else:
+                        rows = np.array(sc["X"])[f.np(f"ufi{j}").randint(0, len(sc["X"]), m)].tolist()
+                        if f.chance(0.3):
+                            # a by-stander's candidates need not have this stream's number of features
+                            rows = [r + [0.25] for r in rows]
+                            e["other_width"] = True
+                    e["rows"] = rows
+                inj.append(e)
         sc["injections"] = sorted(inj, key=lambda e: (e["at"], e["slot"] != "pre"))
         return sc
 
     # ---- executor
+    def _inject(self, sc, ctx, drv, e, rows, k, slot, q, u, subj):
+        for rep in range(e.get("repeat", 1)):
+            fresh = (not drv.is_manager and not hasattr(drv.obj, "budget_manager_") and not any(a.endswith("_") for a in vars(drv.obj))) or (
+                drv.is_manager and not any(a.endswith("_") for a in vars(drv.obj))
+            )
+            if fresh:
+                ctx.probe("lazy_init_by_query")
+            before = snapshot(drv.obj)
+            kind = e["kind"]
+            r2 = rows if kind in ("dup", "noutil") else np.array(e["rows"], dtype=float)
+            if drv.is_manager and kind not in ("dup", "noutil"):
+                r2 = r2[:, 0]
+            try:
+                q2, u2 = drv.query_rows(r2, kind != "noutil")
+            except Exception as ex:
+                ctx.notes.append(f"spurious query raised {type(ex).__name__}")
+                return "spurious-raised"
+            ctx.fault({"dup": "spurious_dup", "foreign": "spurious_foreign", "noutil": "spurious_noutil", "resize": "spurious_resize"}[kind])
+            if e.get("other_width"):
+                ctx.probe("spurious_other_width")
+            if slot == "mid":
+                ctx.probe("spurious_between_query_and_update")
+            if k < 0:
+                ctx.probe("spurious_before_first_update")
+            after = snapshot(drv.obj)
+            changed = diff_keys({k_: v for k_, v in before.items()}, {k_: v for k_, v in after.items() if k_ in before})
+            # attributes of a lazily created budget manager have no 'before'
+            changed = [x for x in changed if not x.endswith("(presence)")]
+            if changed:
+                # judged at the end of the world: only attributes that update() itself advances (or a
+                # generator) are 'state' in the sense of the property, not e.g. a diagnostic cache
+                self._pending.append((changed, kind, k, slot))
+            if kind in ("dup", "noutil") and slot == "mid":
+                # identical arguments, identical answer
+                if not same(list(np.asarray(q2).tolist()), list(np.asarray(q).tolist())) or (kind == "dup" and not same(u2, u)):
+                    ctx.violate("repeat-differs", subj, f"repeated query at chunk {k} answered {list(q2)} instead of {list(q)}", cond={})
+        return None
+
     def _run_world(self, sc, ctx: Ctx, with_injections, record):
         drv = Driver(sc["subject"], sc["clf"], sc["X"], sc["y"])
         subj = subject_name(sc["subject"])
@@ -709,6 +778,26 @@ class C03Check(StreamCheckBase):
                 inj_by.setdefault((e["at"], e["slot"]), []).append(e)
         pos = 0
         last_inj_pos = -1
+        uf = sc.get("update_first")
+        if uf:
+            rows0 = np.array(uf["rows"], dtype=float)
+            if drv.is_manager:
+                rows0 = rows0[:, 0]
+            for e in inj_by.get((-1, "pre"), []):
+                err = self._inject(sc, ctx, drv, e, rows0, -1, "pre", None, None, subj)
+                if err:
+                    return drv, err
+                last_inj_pos = -0.5
+            snap_u0 = snapshot(drv.obj) if with_injections else None
+            try:
+                drv.update_rows(rows0, np.array(uf["queried"], dtype=int), np.array(uf["utilities"], dtype=float))
+            except Exception as e:
+                record.append(("update", -1, {"exc": type(e).__name__, "msg": str(e)[:80]}))
+                return drv, "update-raised"
+            record.append(("update", -1, None))
+            if with_injections:
+                snap_u1 = snapshot(drv.obj)
+                self._upd_written.update(x for x in diff_keys(snap_u0, {k_: v for k_, v in snap_u1.items() if k_ in snap_u0}) if not x.endswith("(presence)"))
         for k, c in enumerate(sc["chunks"]):
             rows = drv.rows(pos, pos + c)
             for slot in ("pre", "mid"):
@@ -723,37 +812,10 @@ class C03Check(StreamCheckBase):
                     if with_injections is False:
                         self._probes_base(ctx, drv, sc, q, u, c)
                 for e in inj_by.get((k, slot), []):
-                    for rep in range(e.get("repeat", 1)):
-                        if not hasattr(drv.obj, "budget_manager_") and not drv.is_manager and k == 0 and slot == "pre":
-                            ctx.probe("lazy_init_by_query")
-                        if drv.is_manager and k == 0 and slot == "pre" and not any(a.endswith("_") for a in vars(drv.obj)):
-                            ctx.probe("lazy_init_by_query")
-                        before = snapshot(drv.obj)
-                        kind = e["kind"]
-                        r2 = rows if kind in ("dup", "noutil") else np.array(e["rows"], dtype=float)
-                        if drv.is_manager and kind not in ("dup", "noutil"):
-                            r2 = r2[:, 0]
-                        try:
-                            q2, u2 = drv.query_rows(r2, kind != "noutil")
-                        except Exception as ex:
-                            ctx.notes.append(f"spurious query raised {type(ex).__name__}")
-                            return drv, "spurious-raised"
-                        ctx.fault({"dup": "spurious_dup", "foreign": "spurious_foreign", "noutil": "spurious_noutil", "resize": "spurious_resize"}[kind])
-                        if slot == "mid":
-                            ctx.probe("spurious_between_query_and_update")
-                        last_inj_pos = pos
-                        after = snapshot(drv.obj)
-                        changed = diff_keys({k_: v for k_, v in before.items()}, {k_: v for k_, v in after.items() if k_ in before})
-                        # attributes of a lazily created budget manager have no 'before'
-                        changed = [x for x in changed if not x.endswith("(presence)")]
-                        if changed:
-                            # judged at the end of the world: only attributes that update() itself advances (or a
-                            # generator) are 'state' in the sense of the property, not e.g. a diagnostic cache
-                            self._pending.append((changed, kind, k, slot))
-                        if kind in ("dup", "noutil") and slot == "mid":
-                            # identical arguments, identical answer
-                            if not same(list(np.asarray(q2).tolist()), list(np.asarray(q).tolist())) or (kind == "dup" and not same(u2, u)):
-                                ctx.violate("repeat-differs", subj, f"repeated query at chunk {k} answered {list(q2)} instead of {list(q)}", cond={})
+                    err = self._inject(sc, ctx, drv, e, rows, k, slot, q if slot == "mid" else None, u if slot == "mid" else None, subj)
+                    if err:
+                        return drv, err
+                    last_inj_pos = pos
             # commit
             snap_u0 = snapshot(drv.obj) if with_injections else None
             try:
@@ -767,7 +829,7 @@ class C03Check(StreamCheckBase):
             if not drv.is_manager and drv.clf_peer.kind == "pwc":
                 ql = list(np.asarray(q, dtype=int).tolist())
                 drv.clf_peer.learn([rows[i] for i in ql], [drv.y[pos + i] for i in ql], pos + c, ctx)
-            if with_injections and last_inj_pos >= 0 and pos > last_inj_pos and len(q):
+            if with_injections and last_inj_pos > -1 and pos > last_inj_pos and len(q):
                 ctx.probe("granted_after_last_injection")
             pos += c
             ctx.sim_time += c
@@ -856,6 +918,15 @@ class C03Check(StreamCheckBase):
 
     def shrink(self, sc):
         yield from self.shrink_common(sc)
+        if sc.get("update_first"):
+            c = copy.deepcopy(sc)
+            del c["update_first"]
+            c["injections"] = [i for i in c["injections"] if i["at"] >= 0]
+            yield c
+            if len(sc["update_first"]["rows"]) > 1:
+                c = copy.deepcopy(sc)
+                c["update_first"] = {"rows": sc["update_first"]["rows"][:1], "queried": [q for q in sc["update_first"]["queried"] if q < 1], "utilities": sc["update_first"]["utilities"][:1]}
+                yield c
         for j, e in enumerate(sc.get("injections", [])):
             if e.get("repeat", 1) > 1:
                 c = copy.deepcopy(sc)
